@@ -263,3 +263,18 @@ Print Assumptions C08_chunk_header_string_is_the_source.
 Print Assumptions C08_last_chunk_string_is_the_source.
 Print Assumptions C08_response_head_is_the_source.
 Print Assumptions C08_request_head_is_the_source.
+
+(* the header lines of the round trips: header_field::to_header(name, value), content_length(size) and chunked_encoding()
+   as translated from clang's AST return the model's to_header / content_length_line / chunked_encoding_line *)
+Theorem C08_to_header_is_the_source : forall name value,
+  xrun (mk_xenv [name; value] 0 0 0) hf_to_header_src = Some (to_header name value).
+Proof. exact to_header_is_the_source. Qed.
+Theorem C08_content_length_line_is_the_source : forall n,
+  xrun (mk_xenv [] 0 0 n) hf_content_length_src = Some (content_length_line n).
+Proof. exact content_length_line_is_the_source. Qed.
+Theorem C08_chunked_encoding_line_is_the_source :
+  xrun (mk_xenv [] 0 0 0) hf_chunked_encoding_src = Some chunked_encoding_line.
+Proof. exact chunked_encoding_line_is_the_source. Qed.
+Print Assumptions C08_to_header_is_the_source.
+Print Assumptions C08_content_length_line_is_the_source.
+Print Assumptions C08_chunked_encoding_line_is_the_source.
